@@ -23,6 +23,22 @@ def continuation_counts(stdin):
         if line == b"EXIT": break
     return ks
 
+def entry_heads(stdin):
+    """first line of each REPL entry (aligned with continuation_counts)"""
+    from profiles import is_block_start
+    L = stdin.split(b"\n")
+    if L and L[-1] == b"": L = L[:-1]
+    hs = []; i = 0
+    while i < len(L):
+        line = L[i]; i += 1
+        hs.append(line)
+        if line not in (b"", b"?", b"EXIT") and not line.startswith(b"RUNFILE") and is_block_start(line):
+            while i < len(L):
+                i += 1
+                if L[i - 1] == b"": break
+        if line == b"EXIT": break
+    return hs
+
 def segments(out, stdin=None):
     """REPL stdout -> per-entry output (prompts removed). With the session's stdin the prompts are removed exactly
     (one '> ' and one '. ' per continuation line); without it every leading '> ' / '. ' is removed."""
